@@ -588,9 +588,11 @@ def run_prop(prop: str, tier: str, replay=None) -> int:
                 layout["unparsed"] += 1
                 continue
             wf, he = fields.get("wf") == "1", fields.get("hoist-equal") == "1"
+            wfd, hed = fields.get("wf-dup") == "1", fields.get("hoist-equal-dup") == "1"
             layout["wf"] += wf
             layout["hoist_equal"] += he
-            if wf and he:
+            layout["hoist_equal_modulo_DUP"] = layout.get("hoist_equal_modulo_DUP", 0) + (wfd and hed)
+            if (wf and he) or (wfd and hed):     # theorems layout_rel_sound / layout_rel_sound_dup
                 layout["equal_denotation_by_theorem"] += 1
                 dn = {f: r.get("denote") for f, r in reps.items()}
                 if len(set(dn.values())) != 1:
